@@ -256,7 +256,8 @@ def hand_order_work(item) -> Dict[str, Any]:
     equation-carrying symbols of HAND_SCRIPT, the equation-less symbols in between.  Solver: the variant's _evaluate
     against sequential execution of the symbols' code in list order, over symbolic cells, t, L.  Concrete: converter
     call order and insertion order.  (Added after seeded change C15_r10mut1.)"""
-    perm, variant = item
+    perm, variant = item[:2]
+    twin = item[2] if len(item) > 2 else None
     install_user_functions()
     base = fsic.parse_model(HAND_SCRIPT)
     eqs = [s for s in base if s.equation is not None]
@@ -289,7 +290,8 @@ def hand_order_work(item) -> Dict[str, Any]:
         want = {'ENDOGENOUS': [s_.name for s_ in order if s_.name], 'LAGS': 1, 'LEADS': 0}[a]
         if getattr(Model, a) != want:
             out['bad'].append({'what': f'{tag}: {variant}.{a} = {getattr(Model, a)!r}, expected {want!r}', 'replayed': True, 'replay': replay})
-    rr = _ordered_code_runner(order)
+    # reachability twin: a reference that runs the blocks in the opposite order must be told apart and replayed
+    rr = _ordered_code_runner(order[::-1] if twin == 'reversed_reference' else order)
     r = equivalence(prog, ref, Model, symbols, spelling='pos', check_text=False, check_reads=False, ref_runner=rr)
     out['paths'] += r['paths']
     add_stats(out['stats'], r['stats'])
@@ -330,7 +332,8 @@ def main() -> int:
     for b in repeated_verbatim_case():
         rep.violation('repeated-verbatim:' + b[:40], b, {'case': b})
     p0 = (Eq(Var('Y'), Bin('+', Var('X', off=-1), Var('Z'))),)
-    tw = [work((p0, 'exec_CODE', 'plus_one')), work((p0, 'wrapper_converter', 'plus_one'))]
+    tw = [work((p0, 'exec_CODE', 'plus_one')), work((p0, 'wrapper_converter', 'plus_one')),
+          hand_order_work(((0, 1, 2, 3), 'build', 'reversed_reference'))]
     c01_finish(rep, results, tw, {'pool': pool}, tier, extra={
         'variants': variants,
         'program_level_assertions': sum(r.get('program_level', 0) for r in results if 'harness_error' not in r),
